@@ -352,6 +352,56 @@ class Facts:
                 s["crate"] = key
                 self.statics.append(s)
         self._role_aliases()
+        self._thin_forwarders()
+
+    def _thin_forwarders(self):
+        """a private function (typically the method of a one-impl private trait) whose whole body is one call of a ring-buffer primitive
+        with its own parameters, returned as it is (`fn pop_oldest(&self) -> Option<E> { self.pop() }`), is that primitive under another
+        name: calls of it are presented as calls of the primitive, and the wrapper body itself is left out of the fact base"""
+        thin = {}
+        for key, b in list(self.bodies.items()):
+            if b.kind == "Closure" or key[0].endswith("#test"):
+                continue
+            calls = b.calls()
+            if len(calls) != 1:
+                continue
+            c = calls[0]
+            d = c.callee.get("def", "")
+            if not d.startswith("crossbeam_queue::"):
+                continue
+            live = [i for i in b.live_blocks()]
+            if len(live) > 3 or c.dest.get("p") or c.dest["l"] != 0 and not any(
+                    s["k"] == "assign" and s["lhs"]["l"] == 0 and s["rv"]["k"] == "use" and (s["rv"]["op"].get("move") or s["rv"]["op"].get("copy") or {}).get("l") == c.dest["l"]
+                    for i in live for s in b.stmts(i)):
+                continue
+            # arguments = the parameters, in order (possibly behind a reborrow / deref of self)
+            if len(c.args) != b.arg_count:
+                continue
+            thin[b.def_] = dict(c.callee)
+            if b.impl and b.impl.get("trait"):
+                thin[b.impl["trait"] + "::" + b.name] = dict(c.callee)
+            b.thin = True
+        if not thin:
+            return
+        for key in [k for k, b in self.bodies.items() if getattr(b, "thin", False)]:
+            b = self.bodies.pop(key)
+            for p_, bs in self.by_path.items():
+                if b in bs:
+                    bs.remove(b)
+        for b in self.bodies.values():
+            changed = False
+            for blk in b.blocks:
+                t = blk.get("term")
+                if t and t.get("k") == "call":
+                    c = t.get("callee") or {}
+                    inner = thin.get(c.get("resolved") or "") or thin.get(c.get("def") or "")
+                    if inner is not None:
+                        new_c = dict(inner)
+                        new_c["via_wrapper"] = c.get("def")
+                        t["callee"] = new_c
+                        changed = True
+            if changed:
+                b._calls = None
 
     def _role_aliases(self):
         """canonical names for the crate-private vocabulary of the EMF output buffer, decided from what each method does (so that the
